@@ -397,6 +397,7 @@ Inductive dop :=
 
 Inductive obs :=
 | ONone
+| OStuck                      (* a submitting call (Dispatch, Delete, constructor) did not return in time *)
 | OSynced (blocked : bool)
 | OEv (pre_blocked : bool) (es : list ev).
 
@@ -480,10 +481,7 @@ Definition dstep (c : cfg) (d : dstate) (o : dop) : dstate * obs :=
       | None => (d', ONone)
       | Some s =>
           if lclosed s then (d', ONone) else
-          let s' := take_n (length (lq s)) (length (lq s)) s in
-          let d1 := mkDS (set_ls (dh d') (upd_l l s' (ls (dh d')))) (gated d') in
-          let d2 := try_step c (try_step c d1 (AClose l)) (ARm l) in
-          (d2, OEv b (strip (skipn (length (lout s)) (lout s'))))
+          (try_step c (try_step c d' (AClose l)) (ARm l), OEv b [])
       end
   end.
 
@@ -496,13 +494,11 @@ Fixpoint dsteps (c : cfg) (d : dstate) (ops : list dop) : dstate * list obs :=
       (d2, x :: xs)
   end.
 
-(** End of a case: final rest, then every open listener's remaining queue (Mock: its record). *)
+(** End of a case: final rest, then every listener's remaining queue (Mock: its record). For a
+    closed listener this is what was buffered for it when it was closed: nobody reads its queue
+    after the close (its socket writer is gone), and the harness only looks at it now. *)
 Definition final_obs (h : hub) (b : bool) : list obs :=
-  map (fun p : nat * lst =>
-         let (_, s) := p in
-         if lclosed s then ONone
-         else OEv b (strip (lq s)))
-      (ls h).
+  map (fun p : nat * lst => let (_, s) := p in OEv b (strip (lq s))) (ls h).
 
 Definition drive (c : cfg) (n : nat) (ops : list dop) : list obs :=
   let (d, xs) := dsteps c (mkDS (hub_init n) false) ops in
@@ -535,7 +531,7 @@ Fixpoint ev_list_eqb (a b : list ev) : bool :=
 
 Record linfo := mkLI { li_id : nat; li_k : lkind; li_f : str; li_fail : option nat;
                        li_seen : list ev;      (* observed so far, gate events stripped *)
-                       li_raw : nat;           (* how many events the harness has taken or the mock recorded *)
+                       li_lb : list ev;        (* closed listener: what it must at least have been handed when it was closed *)
                        li_closed : bool }.
 
 Definition hub_op_of (o : dop) : list op :=
@@ -605,7 +601,7 @@ Fixpoint oracle_go (c : cfg) (n : nat) (ops : list dop) (os : list obs)
           match o, x with
           | DNew l k f fail, ONone =>
               oracle_go c n t os' pre' (if g then lb else pre') g
-                        (lis ++ [mkLI l k f fail [] 0 false]) acc
+                        (lis ++ [mkLI l k f fail [] [] false]) acc
           | DSync, OSynced b =>
               let acc' := if b then worse acc (blocked_verdict c n pre lis) else acc in
               oracle_go c n t os' pre' (if g then lb else pre') g lis acc'
@@ -620,17 +616,18 @@ Fixpoint oracle_go (c : cfg) (n : nat) (ops : list dop) (os : list obs)
                   let seen := li_seen i ++ es in
                   let ent := strip (entitled n i pre) in
                   let closing := match o with DClose _ => true | _ => false end in
-                  let i' := mkLI (li_id i) (li_k i) (li_f i) (li_fail i) seen (li_raw i) (li_closed i || closing) in
+                  let lbv := if closing && negb b then strip (entitled n i (if g then lb else pre)) else li_lb i in
+                  let i' := mkLI (li_id i) (li_k i) (li_f i) (li_fail i) seen lbv (li_closed i || closing) in
                   let acc1 := if b then worse acc (blocked_verdict c n pre lis) else acc in
                   let acc2 := if ev_prefix seen ent then acc1 else worse acc1 (VStream l) in
-                  let acc3 :=
-                    if closing && negb b && negb (ev_prefix (strip (entitled n i (if g then lb else pre))) seen)
-                    then worse acc2 (VIncomplete l) else acc2 in
-                  oracle_go c n t os' pre' (if g then lb else pre') g (upd_li i' lis) acc3
+                  oracle_go c n t os' pre' (if g then lb else pre') g (upd_li i' lis) acc2
               end
           | DTake _ _, ONone | DClose _, ONone
           | DDispatch _, ONone | DDelete _, ONone | DRemove _, ONone =>
               oracle_go c n t os' pre' (if g then lb else pre') g lis acc
+          | DDispatch _, OStuck | DDelete _, OStuck | DRemove _, OStuck | DNew _ _ _ _, OStuck =>
+              (* the op queue is full and the hub does not move: the hub is blocked *)
+              oracle_go c n t os' pre' (if g then lb else pre') g lis (worse acc (blocked_verdict c n pre lis))
           | _, _ => (VShape, pre, lis, os')
           end
       end
@@ -641,13 +638,15 @@ Fixpoint oracle_final (n : nat) (pre : list op) (b : bool) (lis : list linfo) (o
   | [], [] => acc
   | i :: lis', x :: os' =>
       match x with
-      | ONone => if li_closed i then oracle_final n pre b lis' os' acc else VShape
       | OEv _ es =>
           let seen := li_seen i ++ es in
           let ent := strip (entitled n i pre) in
           let acc1 := if ev_prefix seen ent then acc else worse acc (VStream (li_id i)) in
-          let acc2 := if negb b && negb (ev_list_eqb seen ent) && ev_prefix seen ent
-                      then worse acc1 (VIncomplete (li_id i)) else acc1 in
+          let acc2 :=
+            if li_closed i then
+              (if ev_prefix (li_lb i) seen then acc1 else worse acc1 (VIncomplete (li_id i)))
+            else if negb b && negb (ev_list_eqb seen ent) && ev_prefix seen ent
+                 then worse acc1 (VIncomplete (li_id i)) else acc1 in
           oracle_final n pre b lis' os' acc2
       | _ => VShape
       end
